@@ -168,8 +168,8 @@ def bounded(prop, seed, tier, quick_only=False):
         if not (isinstance(got, int) and got >= 10): fails.append(dict(kind='batch_float', function='scared.container::Container._compute_batch_size', got=got))
         return dict(evaluations=ev, failures=len(fails), failing=fails[:5], function='every analysis class x trace-set sizes x batch sizes x frames x preprocess chains, 1 or 2 run() calls, float64, vs one-shot distinguisher', bound='N in %s' % Ns)
     else:
-        kinds = ['CPA', 'SNR'] if tier == 'quick' else ['CPA', 'DPA', 'SNR', 'NICV']
-        grid = [(n, s, b) for n in ((3, 7, 12) if tier == 'quick' else range(1, 13)) for s in ((1, 3, 5, 20) if tier == 'quick' else range(1, 13)) for b in ((1, 3, 12) if tier == 'quick' else (1, 2, 3, 5, 12))]
+        kinds = ['CPA', 'SNR'] if tier == 'quick' else ['CPA', 'DPA', 'SNR']
+        grid = [(n, s, b) for n in ((3, 7, 12) if tier == 'quick' else (1, 2, 3, 5, 7, 12)) for s in ((1, 3, 5, 20) if tier == 'quick' else (1, 2, 3, 5, 7, 20)) for b in ((1, 3, 12) if tier == 'quick' else (1, 2, 5, 12))]      # thorough: 144 cases per attack (each case searches every prefix for every column)
         for kind in kinds:
             for (n, s, b) in grid:
                 ns = [n] if (n + s) % 3 else [n, 4]; ev += 1
